@@ -365,3 +365,457 @@ Proof.
   intros PH VH KH i1 u1 i2 u2 H1 H2 Hl.
   rewrite (run_history_last u1 i1 H1), (run_history_last u2 i2 H2), Hl. repeat split.
 Qed.
+
+(* ---------------------------------------------------------------- service lives: starts, restarts, the store *)
+(* --- the account id stamped on the active nodeConf is the participant's own, whatever its life *)
+Definition svc_wf (self : N) (s : service) : Prop :=
+  s_account s = self /\ exists nc, s_last s = Some nc /\ nc_account nc = self.
+
+Lemma svc_set_last_account : forall s c, s_account (svc_set_last s c) = s_account s.
+Proof.
+  intros s c. unfold svc_set_last. destruct (s_last s) as [nc|]; [|reflexivity].
+  destruct (c_id (nc_conf nc) =? c_id c)%N; reflexivity.
+Qed.
+
+Lemma svc_set_last_store : forall s c, s_store (svc_set_last s c) = s_store s.
+Proof.
+  intros s c. unfold svc_set_last. destruct (s_last s) as [nc|]; [|reflexivity].
+  destruct (c_id (nc_conf nc) =? c_id c)%N; reflexivity.
+Qed.
+
+(* a service whose account id is [self] and whose nodeConf (if any) carries [self] keeps that under setLast *)
+Lemma svc_set_last_wf : forall self s c,
+  s_account s = self ->
+  (forall nc, s_last s = Some nc -> nc_account nc = self) ->
+  svc_wf self (svc_set_last s c).
+Proof.
+  intros self s c Hacc Hnc. split; [now rewrite svc_set_last_account|].
+  unfold svc_set_last. destruct (s_last s) as [nc|] eqn:Hl.
+  - destruct (c_id (nc_conf nc) =? c_id c)%N.
+    + exists nc. split; [exact Hl|now apply Hnc].
+    + eexists. split; [reflexivity|exact Hacc].
+  - eexists. split; [reflexivity|exact Hacc].
+Qed.
+
+Lemma svc_save_and_set_wf : forall self s c, svc_wf self s -> svc_wf self (svc_save_and_set s c).
+Proof.
+  intros self s c [Hacc [nc [Hl Hnc]]]. unfold svc_save_and_set. apply svc_set_last_wf.
+  - exact Hacc.
+  - cbn [s_last]. intros nc' Hl'. rewrite Hl in Hl'. injection Hl' as <-. exact Hnc.
+Qed.
+
+Lemma svc_init_wf : forall self store app, svc_wf self (svc_init self store app).
+Proof.
+  intros self store app. unfold svc_init. destruct store as [st|].
+  - destruct (merge_coord (c_nodes app) (c_nodes st)) as [nodes' must].
+    destruct must.
+    + apply svc_set_last_wf.
+      * unfold svc_save_and_set. now rewrite svc_set_last_account.
+      * intros nc Hl. unfold svc_save_and_set, svc_set_last in Hl. cbn [s_last s_account s_store] in Hl.
+        injection Hl as <-. reflexivity.
+    + apply svc_set_last_wf; [reflexivity|]. cbn [s_last]. discriminate.
+  - apply svc_set_last_wf; [reflexivity|]. cbn [s_last]. discriminate.
+Qed.
+
+Lemma svc_step_wf : forall self s e, svc_wf self s -> svc_wf self (svc_step s e).
+Proof.
+  intros self s e Hwf. destruct e as [app|c]; cbn [svc_step].
+  - destruct Hwf as [-> _]. apply svc_init_wf.
+  - now apply svc_save_and_set_wf.
+Qed.
+
+Theorem life_wf : forall self store0 app0 evs, svc_wf self (life self store0 app0 evs).
+Proof.
+  intros self store0 app0 evs. unfold life.
+  assert (Hgen : forall s, svc_wf self s -> svc_wf self (fold_left svc_step evs s)).
+  { induction evs as [|e r IH]; intros s Hs; [exact Hs|]. cbn [fold_left]. apply IH. now apply svc_step_wf. }
+  apply Hgen. apply svc_init_wf.
+Qed.
+
+(* after ANY life (first start with any store content, then any updates and restarts) the service answers for the
+   participant itself *)
+Theorem life_self : forall self store0 app0 evs, svc_self (life self store0 app0 evs) = self.
+Proof.
+  intros self store0 app0 evs. destruct (life_wf self store0 app0 evs) as [_ [nc [Hl Hnc]]].
+  unfold svc_self. now rewrite Hl.
+Qed.
+
+Theorem life_answers : forall PH VH KH self store0 app0 evs space,
+  svc_node_ids PH VH KH (life self store0 app0 evs) space
+    = node_ids PH VH KH (c_nodes (svc_conf (life self store0 app0 evs))) self space /\
+  svc_is_responsible PH VH KH (life self store0 app0 evs) space
+    = is_responsible PH VH KH (c_nodes (svc_conf (life self store0 app0 evs))) self space.
+Proof.
+  intros. unfold svc_node_ids, svc_is_responsible. rewrite life_self. split; reflexivity.
+Qed.
+
+(* --- what a (re)start leaves active *)
+Theorem svc_init_fresh : forall self app,
+  svc_conf (svc_init self None app) = app /\ s_store (svc_init self None app) = None.
+Proof. intros self app. split; reflexivity. Qed.
+
+Theorem svc_init_stored : forall self st app,
+  snd (merge_coord (c_nodes app) (c_nodes st)) = false ->
+  svc_conf (svc_init self (Some st) app) = st /\ s_store (svc_init self (Some st) app) = Some st.
+Proof.
+  intros self st app Hm. unfold svc_init.
+  destruct (merge_coord (c_nodes app) (c_nodes st)) as [nodes' must]. cbn [snd] in Hm. subst must.
+  split; reflexivity.
+Qed.
+
+Theorem svc_init_merged : forall self st app,
+  snd (merge_coord (c_nodes app) (c_nodes st)) = true ->
+  let m := mkConf MERGED_ID (fst (merge_coord (c_nodes app) (c_nodes st))) in
+  svc_conf (svc_init self (Some st) app) = m /\ s_store (svc_init self (Some st) app) = Some m.
+Proof.
+  intros self st app Hm. unfold svc_init.
+  destruct (merge_coord (c_nodes app) (c_nodes st)) as [nodes' must]. cbn [snd] in Hm. subst must.
+  cbn [fst]. unfold svc_save_and_set, svc_set_last, svc_conf.
+  cbn [s_last s_account s_store nc_conf c_id]. rewrite N.eqb_refl. cbn [s_last s_store nc_conf]. split; reflexivity.
+Qed.
+
+(* --- mergeCoordinatorAddrs and the sync-node list *)
+Definition id_types (ns : list node) : list (N * list N) := map (fun n => (n_id n, n_types n)) ns.
+
+Lemma tree_ids_id_types : forall a b, id_types a = id_types b -> tree_ids a = tree_ids b.
+Proof.
+  induction a as [|x a IH]; intros b H; destruct b as [|y b]; try discriminate; [reflexivity|].
+  cbn [id_types map] in H. injection H as Hid Hty Hr. unfold tree_ids in *. cbn [filter].
+  unfold has_type at 1 3. rewrite Hty. fold (has_type T_TREE y).
+  destruct (has_type T_TREE y); cbn [map]; [rewrite Hid; f_equal|]; now apply IH.
+Qed.
+
+Lemma upd_last_id_types : forall id f ns,
+  (forall n, n_id (f n) = n_id n /\ n_types (f n) = n_types n) ->
+  id_types (fst (upd_last id f ns)) = id_types ns.
+Proof.
+  intros id f ns Hf. unfold id_types. induction ns as [|n r IH]; [reflexivity|].
+  cbn [upd_last]. destruct (upd_last id f r) as [r' done]. cbn [fst] in IH.
+  destruct done; cbn [fst map]; [now rewrite IH|].
+  destruct (is_coord n && (n_id n =? id)%N); cbn [fst map].
+  - destruct (Hf n) as [-> ->]. now rewrite IH.
+  - now rewrite IH.
+Qed.
+
+Definition unknown_to (st : list node) (a : node) : bool :=
+  match last_coord (n_id a) st with None => true | Some _ => false end.
+
+Lemma tree_ids_app : forall a b, tree_ids (a ++ b) = tree_ids a ++ tree_ids b.
+Proof. intros a b. unfold tree_ids. now rewrite filter_app, map_app. Qed.
+
+Lemma merge_fold_tree_ids : forall st0 entries acc,
+  tree_ids (fst (fold_left (merge_step st0) entries acc))
+  = tree_ids (fst acc) ++ tree_ids (filter (unknown_to st0) entries).
+Proof.
+  intros st0 entries. induction entries as [|a r IH]; intros acc.
+  - cbn [fold_left filter]. unfold tree_ids at 3. cbn [filter map]. now rewrite app_nil_r.
+  - cbn [fold_left filter]. rewrite IH. unfold merge_step, unknown_to.
+    destruct (last_coord (n_id a) st0) as [sn|].
+    + destruct (filter (fun x => negb (memN x (n_addrs sn))) (n_addrs a)) as [|m ms]; [reflexivity|].
+      cbn [fst]. f_equal. apply tree_ids_id_types. apply upd_last_id_types.
+      intro n. split; reflexivity.
+    + cbn [fst]. fold (unknown_to st0).
+      change (a :: filter (unknown_to st0) r) with ([a] ++ filter (unknown_to st0) r).
+      rewrite !tree_ids_app, app_assoc. reflexivity.
+Qed.
+
+(* the sync nodes after the merge: those of the stored configuration, then those app-configuration coordinators
+   (one entry per peer id) that the stored configuration does not know as coordinators and that are ALSO sync nodes *)
+Theorem merge_coord_tree_ids : forall app st,
+  tree_ids (fst (merge_coord app st))
+  = tree_ids st ++ tree_ids (filter (unknown_to st) (coord_entries app)).
+Proof. intros app st. unfold merge_coord. now rewrite merge_fold_tree_ids. Qed.
+
+Lemma merge_fold_unchanged : forall st0 entries acc,
+  snd (fold_left (merge_step st0) entries acc) = false ->
+  fold_left (merge_step st0) entries acc = acc.
+Proof.
+  intros st0 entries. induction entries as [|a r IH]; intros acc H; [reflexivity|].
+  cbn [fold_left] in *.
+  assert (Hmono : forall es x, snd x = true -> snd (fold_left (merge_step st0) es x) = true).
+  { induction es as [|e es IHes]; intros x Hx; [exact Hx|]. cbn [fold_left]. apply IHes.
+    unfold merge_step. destruct (last_coord (n_id e) st0) as [sn|]; [|reflexivity].
+    destruct (filter (fun y => negb (memN y (n_addrs sn))) (n_addrs e)); [exact Hx|reflexivity]. }
+  assert (Hstep : merge_step st0 acc a = acc).
+  { unfold merge_step in *. destruct (last_coord (n_id a) st0) as [sn|].
+    - destruct (filter (fun y => negb (memN y (n_addrs sn))) (n_addrs a)); [reflexivity|].
+      rewrite Hmono in H by reflexivity. discriminate.
+    - rewrite Hmono in H by reflexivity. discriminate. }
+  rewrite Hstep in *. now apply IH.
+Qed.
+
+(* mustRewriteLocalConfig = false: the stored configuration is untouched *)
+Theorem merge_coord_unchanged : forall app st,
+  snd (merge_coord app st) = false -> fst (merge_coord app st) = st.
+Proof. intros app st H. unfold merge_coord in *. now rewrite merge_fold_unchanged. Qed.
+
+(* --- a second restart with the same app configuration finds nothing to merge *)
+Lemma coord_entries_in : forall ns x, In x (coord_entries ns) -> In x ns /\ is_coord x = true.
+Proof.
+  induction ns as [|n r IH]; intros x H; [contradiction|]. cbn [coord_entries] in H.
+  destruct (is_coord n) eqn:Hc; cbn [andb] in H.
+  - destruct (negb (existsb (fun m => is_coord m && (n_id m =? n_id n)%N) r)).
+    + destruct H as [<-|H]; [split; [now left|exact Hc]|]. destruct (IH x H). split; [now right|assumption].
+    + destruct (IH x H). split; [now right|assumption].
+  - destruct (IH x H). split; [now right|assumption].
+Qed.
+
+Lemma coord_entries_nodup : forall ns, NoDup (map n_id (coord_entries ns)).
+Proof.
+  induction ns as [|n r IH]; [constructor|]. cbn [coord_entries].
+  destruct (is_coord n && negb (existsb (fun m => is_coord m && (n_id m =? n_id n)%N) r)) eqn:H; [|exact IH].
+  apply andb_true_iff in H. destruct H as [_ H]. apply negb_true_iff in H.
+  cbn [map]. constructor; [|exact IH]. intro Hin. apply in_map_iff in Hin. destruct Hin as [x [Hid Hx]].
+  apply coord_entries_in in Hx. destruct Hx as [Hxr Hxc].
+  assert (Ht : existsb (fun m => is_coord m && (n_id m =? n_id n)%N) r = true).
+  { apply existsb_exists. exists x. split; [exact Hxr|]. rewrite Hxc, Hid. cbn [andb]. apply N.eqb_refl. }
+  congruence.
+Qed.
+
+Lemma last_coord_snoc : forall id ns a,
+  last_coord id (ns ++ [a]) = if is_coord a && (n_id a =? id)%N then Some a else last_coord id ns.
+Proof.
+  intros id ns a. induction ns as [|n r IH].
+  - cbn [app last_coord]. reflexivity.
+  - cbn [app last_coord]. rewrite IH. destruct (is_coord a && (n_id a =? id)%N); reflexivity.
+Qed.
+
+Lemma last_coord_upd_same : forall id f ns,
+  (forall n, n_id (f n) = n_id n /\ n_types (f n) = n_types n) ->
+  last_coord id (fst (upd_last id f ns)) = option_map f (last_coord id ns)
+  /\ snd (upd_last id f ns) = match last_coord id ns with Some _ => true | None => false end.
+Proof.
+  intros id f ns Hf. induction ns as [|n r [IH1 IH2]]; [split; reflexivity|].
+  cbn [upd_last last_coord]. destruct (upd_last id f r) as [r' done]. cbn [fst snd] in IH1, IH2.
+  destruct (last_coord id r) as [m|]; subst done.
+  - cbn [fst snd last_coord]. rewrite IH1. split; reflexivity.
+  - destruct (is_coord n && (n_id n =? id)%N) eqn:Hn; cbn [fst snd last_coord]; rewrite IH1; cbn [option_map].
+    + assert (Hfn : is_coord (f n) && (n_id (f n) =? id)%N = true).
+      { destruct (Hf n) as [Hi Ht]. unfold is_coord, has_type in *. now rewrite Hi, Ht. }
+      rewrite Hfn. split; reflexivity.
+    + rewrite Hn. split; reflexivity.
+Qed.
+
+Lemma last_coord_upd_other : forall id id' f ns,
+  (forall n, n_id (f n) = n_id n /\ n_types (f n) = n_types n) -> id' <> id ->
+  last_coord id' (fst (upd_last id f ns)) = last_coord id' ns.
+Proof.
+  intros id id' f ns Hf Hne. induction ns as [|n r IH]; [reflexivity|].
+  cbn [upd_last last_coord]. destruct (upd_last id f r) as [r' done]. cbn [fst] in IH.
+  destruct done; [cbn [fst last_coord]; rewrite IH; reflexivity|].
+  destruct (is_coord n && (n_id n =? id)%N) eqn:Hn; cbn [fst last_coord]; rewrite IH; [|reflexivity].
+  destruct (last_coord id' r); [reflexivity|].
+  apply andb_true_iff in Hn. destruct Hn as [_ Hn]. apply N.eqb_eq in Hn.
+  destruct (Hf n) as [Hi Ht]. unfold is_coord, has_type in *. rewrite Hi, Ht.
+  assert (H1 : (n_id n =? id')%N = false) by (apply N.eqb_neq; congruence).
+  rewrite H1, !andb_false_r. reflexivity.
+Qed.
+
+Definition add_addrs_if (miss : list N) (x : node) : node :=
+  match miss with [] => x | _ => add_addrs miss x end.
+
+Lemma option_map_id : forall (A : Type) (o : option A), option_map (fun x => x) o = o.
+Proof. intros A [x|]; reflexivity. Qed.
+
+Lemma merge_step_last_coord : forall st0 acc e id,
+  is_coord e = true ->
+  last_coord id (fst (merge_step st0 acc e)) =
+    if (n_id e =? id)%N
+    then match last_coord id st0 with
+         | None => Some e
+         | Some sn => option_map (add_addrs_if (filter (fun x => negb (memN x (n_addrs sn))) (n_addrs e)))
+                                 (last_coord id (fst acc))
+         end
+    else last_coord id (fst acc).
+Proof.
+  intros st0 acc e id He. unfold merge_step.
+  assert (Hf : forall miss n, n_id (add_addrs miss n) = n_id n /\ n_types (add_addrs miss n) = n_types n)
+    by (intros; split; reflexivity).
+  destruct (n_id e =? id)%N eqn:Hid.
+  - apply N.eqb_eq in Hid. subst id. destruct (last_coord (n_id e) st0) as [sn|].
+    + destruct (filter (fun x => negb (memN x (n_addrs sn))) (n_addrs e)) as [|m ms] eqn:Hm.
+      * cbn [add_addrs_if]. unfold add_addrs_if. now rewrite option_map_id.
+      * cbn [fst]. destruct (last_coord_upd_same (n_id e) (add_addrs (m :: ms)) (fst acc) (Hf (m :: ms))) as [-> _].
+        reflexivity.
+    + cbn [fst]. rewrite last_coord_snoc, He, N.eqb_refl. reflexivity.
+  - apply N.eqb_neq in Hid. destruct (last_coord (n_id e) st0) as [sn|].
+    + destruct (filter (fun x => negb (memN x (n_addrs sn))) (n_addrs e)) as [|m ms]; [reflexivity|].
+      cbn [fst]. apply last_coord_upd_other; [apply Hf|congruence].
+    + cbn [fst]. rewrite last_coord_snoc, He. cbn [andb].
+      assert (H1 : (n_id e =? id)%N = false) by now apply N.eqb_neq. now rewrite H1.
+Qed.
+
+Lemma merge_fold_last_coord : forall st0 es,
+  NoDup (map n_id es) -> (forall a, In a es -> is_coord a = true) ->
+  forall acc a, In a es ->
+  last_coord (n_id a) (fst (fold_left (merge_step st0) es acc)) =
+    match last_coord (n_id a) st0 with
+    | None => Some a
+    | Some sn => option_map (add_addrs_if (filter (fun x => negb (memN x (n_addrs sn))) (n_addrs a)))
+                            (last_coord (n_id a) (fst acc))
+    end.
+Proof.
+  intros st0 es. induction es as [|e r IH]; intros Hnd Hc acc a Hin; [contradiction|].
+  cbn [map] in Hnd. inversion Hnd as [|x l Hnotin Hnd']. subst x l.
+  assert (Hce : is_coord e = true) by (apply Hc; now left).
+  (* entries after e do not touch e's id *)
+  assert (Hrest : forall es' acc' id, (forall b, In b es' -> is_coord b = true) -> ~ In id (map n_id es') ->
+            last_coord id (fst (fold_left (merge_step st0) es' acc')) = last_coord id (fst acc')).
+  { induction es' as [|b es' IH']; intros acc' id Hc' Hni; [reflexivity|].
+    cbn [fold_left]. rewrite IH'.
+    - rewrite merge_step_last_coord by (apply Hc'; now left).
+      destruct (n_id b =? id)%N eqn:Hb; [|reflexivity].
+      apply N.eqb_eq in Hb. exfalso. apply Hni. cbn [map]. now left.
+    - intros b' Hb'. apply Hc'. now right.
+    - intro Hi. apply Hni. cbn [map]. now right. }
+  cbn [fold_left]. destruct Hin as [<-|Hin].
+  - rewrite Hrest; [|intros b Hb; apply Hc; now right|exact Hnotin].
+    rewrite merge_step_last_coord by exact Hce. now rewrite N.eqb_refl.
+  - rewrite (IH Hnd' (fun b Hb => Hc b (or_intror Hb)) _ a Hin).
+    destruct (last_coord (n_id a) st0) as [sn|]; [|reflexivity].
+    rewrite merge_step_last_coord by exact Hce.
+    assert (Hne : (n_id e =? n_id a)%N = false).
+    { apply N.eqb_neq. intro Heq. apply Hnotin. rewrite Heq. now apply in_map. }
+    now rewrite Hne.
+Qed.
+
+Lemma filter_covered : forall (have want : list N),
+  (forall x, In x want -> In x have) -> filter (fun x => negb (memN x have)) want = [].
+Proof.
+  intros have want H. induction want as [|w r IH]; [reflexivity|]. cbn [filter].
+  assert (Hw : memN w have = true) by (apply memN_true; apply H; now left).
+  rewrite Hw. cbn [negb]. apply IH. intros x Hx. apply H. now right.
+Qed.
+
+Theorem merge_coord_idempotent : forall app st,
+  merge_coord app (fst (merge_coord app st)) = (fst (merge_coord app st), false).
+Proof.
+  intros app st. set (merged := fst (merge_coord app st)).
+  assert (Hstep : forall a, In a (coord_entries app) -> forall acc, merge_step merged acc a = acc).
+  { intros a Ha acc. unfold merge_step.
+    assert (Hl := merge_fold_last_coord st (coord_entries app) (coord_entries_nodup app)
+                    (fun b Hb => proj2 (coord_entries_in app b Hb)) (st, false) a Ha).
+    fold (merge_coord app st) in Hl. fold merged in Hl. rewrite Hl. cbn [fst].
+    destruct (last_coord (n_id a) st) as [sn|].
+    - cbn [option_map]. set (miss := filter (fun x => negb (memN x (n_addrs sn))) (n_addrs a)).
+      rewrite filter_covered; [reflexivity|].
+      intros x Hx. unfold add_addrs_if. destruct miss as [|m ms] eqn:Hm.
+      + destruct (memN x (n_addrs sn)) eqn:Hmem; [now apply memN_true|].
+        assert (Hin : In x miss) by (unfold miss; apply filter_In; split; [exact Hx|now rewrite Hmem]).
+        rewrite Hm in Hin. contradiction.
+      + cbn [add_addrs n_addrs]. apply in_or_app.
+        destruct (memN x (n_addrs sn)) eqn:Hmem; [left; now apply memN_true|].
+        right. rewrite <- Hm. unfold miss. apply filter_In. split; [exact Hx|now rewrite Hmem].
+    - rewrite filter_covered; [reflexivity|]. intros x Hx. exact Hx. }
+  unfold merge_coord at 1. fold merged.
+  assert (Hfold : forall es acc, (forall a, In a es -> In a (coord_entries app)) ->
+                    fold_left (merge_step merged) es acc = acc).
+  { induction es as [|e r IH]; intros acc Hsub; [reflexivity|]. cbn [fold_left].
+    rewrite Hstep by (apply Hsub; now left). apply IH. intros a Ha. apply Hsub. now right. }
+  apply Hfold. intros a Ha. exact Ha.
+Qed.
+
+(* restarting once more with the same app configuration changes nothing: what the first restart saved already
+   contains every coordinator node / address of the app configuration *)
+Theorem restart_again_stable : forall self self' st app,
+  let s1 := svc_init self (Some st) app in
+  svc_conf (svc_init self' (s_store s1) app) = svc_conf s1 /\ s_store (svc_init self' (s_store s1) app) = s_store s1.
+Proof.
+  intros self self' st app s1. unfold s1.
+  destruct (snd (merge_coord (c_nodes app) (c_nodes st))) eqn:Hm.
+  - destruct (svc_init_merged self st app Hm) as [Hc Hs]. cbv zeta in Hc, Hs. rewrite Hc, Hs.
+    apply svc_init_stored. cbn [c_nodes]. now rewrite merge_coord_idempotent.
+  - destruct (svc_init_stored self st app Hm) as [Hc Hs]. rewrite Hc, Hs. now apply svc_init_stored.
+Qed.
+
+(* --- updates delivered to a running service: the configuration part behaves as run_history *)
+Lemma svc_save_and_set_conf : forall self s c, svc_wf self s ->
+  svc_conf (svc_save_and_set s c) = set_last (svc_conf s) c /\ s_store (svc_save_and_set s c) = Some c.
+Proof.
+  intros self s c [_ [nc [Hl _]]]. unfold svc_save_and_set. rewrite svc_set_last_store. cbn [s_store].
+  split; [|reflexivity]. unfold svc_set_last, svc_conf, set_last. cbn [s_last]. rewrite Hl.
+  destruct (c_id (nc_conf nc) =? c_id c)%N; reflexivity.
+Qed.
+
+Lemma fold_updates_conf : forall self us s, svc_wf self s ->
+  svc_conf (fold_left svc_step (map EUpd us) s) = run_history (svc_conf s) us.
+Proof.
+  intros self us. induction us as [|u r IH]; intros s Hs; [reflexivity|].
+  cbn [map fold_left svc_step]. rewrite IH by now apply svc_save_and_set_wf.
+  destruct (svc_save_and_set_conf self s u Hs) as [-> _]. reflexivity.
+Qed.
+
+(* the last session decides: whatever happened before the last (re)start only matters through what the store holds *)
+Theorem life_last_session : forall self store0 app0 evs a us,
+  let before := life self store0 app0 evs in
+  svc_conf (life self store0 app0 (evs ++ EStart a :: map EUpd us))
+  = run_history (svc_conf (svc_init self (s_store before) a)) us.
+Proof.
+  intros self store0 app0 evs a us before. unfold life. rewrite fold_left_app. cbn [fold_left svc_step].
+  fold (life self store0 app0 evs). fold before.
+  destruct (life_wf self store0 app0 evs) as [Hacc _]. fold before in Hacc. rewrite Hacc.
+  apply (fold_updates_conf self). apply svc_init_wf.
+Qed.
+
+Theorem life_first_session : forall self store0 app0 us,
+  svc_conf (life self store0 app0 (map EUpd us)) = run_history (svc_conf (svc_init self store0 app0)) us.
+Proof. intros. unfold life. apply (fold_updates_conf self). apply svc_init_wf. Qed.
+
+(* --- agreement of participants with arbitrary lives *)
+Section LifeAgreement.
+  Variable PH : list N.
+  Variable VH : N -> list N.
+  Variable KH : list N -> N.
+  Hypothesis VH_nonempty : forall m, VH m <> [].
+  Hypothesis PH_nonempty : PH <> [].
+
+  (* Any two participants p, q, each after ANY life (any store content at the first start, any app configurations,
+     any updates, any restarts), whose active configurations have the same sync nodes (in particular: the same
+     configuration): one member set M serves both - NodeIds = M minus self, IsResponsible = (self in M). *)
+  Theorem lives_agree : forall p sp ap ep q sq aq eq_ s,
+    let Lp := life p sp ap ep in
+    let Lq := life q sq aq eq_ in
+    Permutation (tree_ids (c_nodes (svc_conf Lp))) (tree_ids (c_nodes (svc_conf Lq))) ->
+    exists M,
+      NoDup M /\ (forall x, In x M -> In x (tree_ids (c_nodes (svc_conf Lp)))) /\
+      length M = Nat.min REPLICATION_FACTOR (member_count (tree_ids (c_nodes (svc_conf Lp)))) /\
+      svc_node_ids PH VH KH Lp s = Ok (filter (fun m => negb (m =? p)%N) M) /\
+      svc_node_ids PH VH KH Lq s = Ok (filter (fun m => negb (m =? q)%N) M) /\
+      (exists b, svc_is_responsible PH VH KH Lp s = Ok b /\ (b = true <-> In p M)) /\
+      (exists b, svc_is_responsible PH VH KH Lq s = Ok b /\ (b = true <-> In q M)).
+  Proof.
+    intros p sp ap ep q sq aq eq_ s Lp Lq Hperm.
+    destruct (participants_agree PH VH KH VH_nonempty PH_nonempty (c_nodes (svc_conf Lp)) s)
+      as [M [_ [Hnd [Hsub [Hlen Hall]]]]].
+    exists M. split; [exact Hnd|]. split; [exact Hsub|]. split; [exact Hlen|].
+    assert (Ht : table PH VH (c_nodes (svc_conf Lq)) = table PH VH (c_nodes (svc_conf Lp)))
+      by (symmetry; now apply table_perm).
+    unfold svc_node_ids, svc_is_responsible. unfold Lp at 2 4, Lq at 2 4. rewrite !life_self.
+    fold Lp. fold Lq.
+    assert (Hq1 : node_ids PH VH KH (c_nodes (svc_conf Lq)) q s = node_ids PH VH KH (c_nodes (svc_conf Lp)) q s)
+      by (unfold node_ids; now rewrite Ht).
+    assert (Hq2 : is_responsible PH VH KH (c_nodes (svc_conf Lq)) q s
+                  = is_responsible PH VH KH (c_nodes (svc_conf Lp)) q s)
+      by (unfold is_responsible; now rewrite Ht).
+    rewrite Hq1, Hq2.
+    destruct (Hall p) as [Hnp Hrp]. destruct (Hall q) as [Hnq Hrq].
+    repeat split; assumption.
+  Qed.
+
+  (* the answers the correspondence runner computes for participants with lives (identity = the account id stamped on
+     the life's nodeConf) satisfy the property predicate *)
+  Theorem life_model_meets_spec : forall cfg t (qs : list ((N * option conf * conf * list event) * list N)),
+    table PH VH cfg = Ok t ->
+    spec_C18 cfg REPLICATION_FACTOR
+      (map (fun q => let '(self, st, app, evs) := fst q in
+                     model_obs PH KH t (svc_self (life self st app evs)) (snd q)) qs) = true.
+  Proof.
+    intros cfg t qs Ht.
+    rewrite (map_ext _ (fun q => model_obs PH KH t (fst ((fun q => (fst (fst (fst (fst q))), snd q)) q))
+                                           (snd ((fun q => (fst (fst (fst (fst q))), snd q)) q)))).
+    - rewrite <- (map_map (fun q => (fst (fst (fst (fst q))), snd q))
+                          (fun q => model_obs PH KH t (fst q) (snd q))).
+      exact (model_meets_spec PH VH KH VH_nonempty PH_nonempty cfg t _ Ht).
+    - intros [[[[self st] app] evs] sp]. cbn [fst snd]. now rewrite life_self.
+  Qed.
+End LifeAgreement.
